@@ -12,6 +12,10 @@ CONSTANTS
   ObserveCb = TRUE
   TrackQuiet = TRUE
   UnitMs = 1000
-INVARIANTS TypeOK Converged LearnsLive ForgetsDead SelfListed PeriodRestored NoDuplicateAddr ChannelSane
+  Boot <- NoNodes
+  CrashSet <- AllNodes
+  StopSet <- AllNodes
+  Sync = FALSE
+INVARIANTS TypeOK Converged LearnsLive ForgetsDead PeerForgotten PeerLearnt SelfListed PeriodRestored NoDuplicateAddr ChannelSane
 PROPERTIES CallbackIffChange NoResurrection
 VIEW View
